@@ -561,11 +561,11 @@ def verify (E : Env) (i : Bool) (w : World) (c : Cred) : Verdict × World :=
   | (_, w') => (.ok, w')
 
 /-- `validateNutsCredentialID`: the first check of the validators of NutsOrganizationCredential and NutsAuthorizationCredential
-    (`resolver.GetDIDFromURL(credential.ID.String())` must equal the issuer; `credential.ID` is dereferenced before the
-    default validator's nil check). The default validator (every other credential type) has no such check. -/
+    (`credential.ID` must be present and `resolver.GetDIDFromURL(credential.ID.String())` must equal the issuer).
+    The default validator (every other credential type) has no such rule. -/
 def validateNutsId (c : Cred) : Res Unit :=
   match c.id with
-  | none => .panic "validateNutsCredentialID:credential.ID nil"
+  | none => .err "validation"
   | some id => if prefixOf id != c.issuer then .err "validation" else .ok ()
 
 /-- `verifier.Verify` up to and including the revocation checks: the type-specific validator's id rule, then `verify` -/
